@@ -422,6 +422,8 @@ def rotation_case(draw):
         "gz": draw(st.booleans()),
         # what distinguishes the files: the hour (the default template's granularity), the minute, or a record field
         "gran": draw(st.sampled_from(["hour", "hour", "minute", "field"])),
+        # the adapter is chosen by the template's extension
+        "ext": draw(st.sampled_from([None, None, None, ".json", ".jsonl", ".avro", ".records.bz2"])),
     }
 
 
@@ -439,7 +441,8 @@ def check_rotation(case, ctx):
     clock = OwnedClock(_d.datetime(2024, 1, 1, 12, 0, 0, tzinfo=UTC), step)
     fake = types.SimpleNamespace(datetime=types.SimpleNamespace(now=clock.now), timezone=_d.timezone, timedelta=_d.timedelta)
     try:
-        ext = ".records.gz" if case["gz"] else ".records"
+        ext = case.get("ext") or (".records.gz" if case["gz"] else ".records")
+        ctx.cls("template-extension:" + ext)
         gran = case.get("gran", "hour")
         ctx.cls("template-granularity:" + gran)
         if gran == "hour":
